@@ -136,3 +136,114 @@ def count_not_position(t, rid):
     if contains(v, lambda x: isinstance(x, tuple) and x and x[0] == "call" and method_of(x[1]) in ("position", "rposition", "find", "find_map")):
         r.bad("count-from-position", first, f"the address count is {fmt(v)[:90]}: a search position, undefined when no slot matches (a full list is written as empty)")
     return r
+
+
+def no_silent_drop(t, rid):
+    """NO-SILENT-DROP: a reliable message (or slice) the receive channel is handed is either stored / fed to its reassembly, refused with an error
+    (which ends the connection), or recognised as a duplicate (id below the cursor, already buffered, already consumed) - on every path. The
+    packet that carried it has already been acknowledged by RenetClient::process_packet, so anything else (`return Ok(())` because a buffer
+    count or an id window is exceeded, 'the sender will resend it') loses the message for good: the sender has released it."""
+    r = RuleResult(rid, "a reliable message/slice is never discarded without being a duplicate: every Ok path stores it, feeds the reassembly, or passed a duplicate test", floor=0)
+    for fname, work_pat in (("ReceiveChannelReliable::process_message", None), ("ReceiveChannelReliable::process_slice", r"SliceConstructor::process_slice$")):
+        f = t.fn(fname)
+        dup_edges = []
+        for fld in ("messages", "received_messages"):
+            a, p = map_key_edges(t, f, fld, lambda k: True)
+            dup_edges += p
+        is_id = lambda a: re.search(r"message_id\)*$", fmt(strip(a))) is not None
+        is_cur = lambda b: fmt(strip(b)).endswith("oldest_pending_message_id")
+        dup_edges += [e for e, br in rel_edges(t, f, is_id, is_cur, "Lt")]
+        if not dup_edges: r.samples.append(f"{fname}: duplicate tests not identified, rule not evaluated"); continue
+        # a duplicate test whose outcome is first stored in a flag (`let known = a || b;`, a predicate helper returning bool): the true edge of a
+        # branch on the flag is a duplicate edge when every definition that sets the flag to true lies behind a duplicate edge
+        for _ in range(4):
+            grew = False
+            for br in t.branches(f):
+                if br["kind"] != "bool" or br["t_edge"] in dup_edges: continue
+                raw = br["raw"]
+                if not (isinstance(raw, tuple) and raw[0] == "phi"): continue
+                good = True
+                for d in f.defs().get(raw[1], []):
+                    n_ = d[2]
+                    if n_["k"] == "assign" and n_["rv"]["k"] == "use" and n_["rv"]["op"]["k"] == "const":
+                        if n_["rv"]["op"]["val"] == 1 and not any(t.edge_dominates(f, e, d[0]) for e in dup_edges): good = False
+                    elif n_["k"] == "call" and method_of(callee_name(n_)) in ("contains", "contains_key") and re.search(r"\.(messages|received_messages)\b", fmt(f.origin_of_operand(n_["args"][0]))): pass      # the flag IS a duplicate test
+                    elif n_["k"] == "assign" and n_["rv"]["k"] == "bin":
+                        cnd = t.norm_cond(f._origin_of_def(n_, 0))
+                        okc = cnd[0] == "cmp" and ((cnd[1] == "Lt" and is_id(cnd[2]) and is_cur(cnd[3])) or (cnd[1] == "Gt" and is_cur(cnd[2]) and is_id(cnd[3])))
+                        if not okc: good = False      # (`id < cursor` stored in the flag is a duplicate test; any other comparison is not)
+                    else: good = False
+                if good and f.defs().get(raw[1]): dup_edges.append(br["t_edge"]); grew = True
+            if not grew: break
+        targets = set()
+        for c in t.sites(f):
+            n = c.node
+            if n["k"] == "call" and n["args"]:
+                m_ = method_of(callee_name(n))
+                a0 = fmt(t.arg(c, 0))
+                if m_ in ("insert", "or_insert", "or_insert_with", "push_back", "push") and re.search(r"\.(messages|slices)\b", a0): targets.add(pos(c))
+                if re.search(r"VacantEntry.*::insert$", callee_name(n)) and re.search(r"\.(messages|slices)\b", a0): targets.add(pos(c))
+                if work_pat and re.search(work_pat, callee_name(n)): targets.add(pos(c))
+                if re.search(r"ReceiveChannelReliable::process_message$", callee_name(n)): targets.add(pos(c))
+            if n["k"] == "assign" and n["rv"]["k"] == "aggr" and (str(n["rv"].get("path") or "").endswith("ChannelError") or (str(n["rv"].get("path") or "").endswith("result::Result") and n["rv"].get("vname") == "Err")): targets.add(pos(c))
+            if n["k"] == "call" and "from_residual" in callee_name(n): targets.add(pos(c))
+        r.site(Site(f, 0, 0, f.blocks[0]["term"]), f"{short(fname)}: {len(dup_edges)} duplicate edges, {len(targets)} store/feed/refuse sites")
+        ok, w = must_pass(f, (0, -1), targets, avoid_edges=set(dup_edges))
+        if not ok:
+            r.bad(f"{short(fname)}|silent-drop", _term_site(f, w), f"{short(fname)} can return Ok(()) (through bb{w}) for a message that is neither stored, fed to the reassembly, refused with an error nor recognised as a duplicate: its packet has already been acknowledged, so the sender releases it and it is never delivered")
+    return r
+
+
+def resend_scan_reached(t, rid):
+    """MUST-PASS: every call of SendChannelReliable::get_packets_to_send examines the unacknowledged messages: each path from the entry to a
+    return passes the iteration over unacked_messages. A shortcut that returns early from a remembered 'next transmission time' (or any other
+    stored summary) skips messages whose own resend time has elapsed."""
+    r = RuleResult(rid, "every path through SendChannelReliable::get_packets_to_send reaches the scan over unacked_messages (no early return from a cached deadline)", floor=0)
+    f = t.fn("SendChannelReliable::get_packets_to_send")
+    its = [c for c in t.sites(f) if c.node["k"] == "call" and c.node["args"] and method_of(callee_name(c.node)) in ("iter_mut", "iter", "values_mut", "values", "into_iter", "range_mut", "retain", "for_each") and re.search(r"\.unacked_messages\)*$", fmt(strip(t.arg(c, 0))))]
+    if not its: r.samples.append("scan over unacked_messages not identified, rule not evaluated"); return r
+    for c in its[:1]: r.site(c, "scan")
+    # nothing to scan: the true edge of `unacked_messages.is_empty()` (or `len() == 0`) may leave directly
+    empty_edges = set()
+    for br in t.branches(f):
+        if br["kind"] == "bool" and br["cond"][0] == "call" and method_of(br["cond"][1]) == "is_empty" and br["cond"][2] and re.search(r"\.unacked_messages\)*$", fmt(strip(br["cond"][2][0]))): empty_edges.add(br["t_edge"])
+    is_len = lambda a: isinstance(strip(a), tuple) and strip(a)[0] == "call" and method_of(strip(a)[1]) == "len" and "unacked_messages" in fmt(a)
+    empty_edges |= {e for e, br in rel_edges(t, f, is_len, lambda b: const_eval(b) == 0, "Eq")}
+    ok, w = must_pass(f, (0, -1), {pos(c) for c in its}, avoid_edges=empty_edges)
+    if not ok: r.bad("scan-skipped", _term_site(f, w), f"get_packets_to_send can return (through bb{w}) without looking at unacked_messages: a message whose resend_time has elapsed is not retransmitted in that tick")
+    return r
+
+
+def sent_record_removers(t, rid):
+    """WHO-MAY-REMOVE: a record leaves sent_packets only when its packet is acknowledged (RenetClient::process_packet) or when it is older than the
+    discard horizon (RenetClient::update). The record is the only link from an acknowledged sequence to the messages/slices the packet carried;
+    evicting it earlier (a size cap, a clean-up in the send path) makes a later ack a no-op: the data is retransmitted although it was acked."""
+    r = RuleResult(rid, "records are removed from sent_packets only by process_packet (ack) and update (horizon)", floor=0)
+    for f in t.fns(r"^renet::remote_connection::"):
+        for c in t.sites(f):
+            n = c.node
+            if n["k"] != "call" or not n["args"]: continue
+            m_ = method_of(callee_name(n))
+            if m_ not in ("remove", "remove_entry", "pop_first", "pop_last", "retain", "clear", "split_off", "drain", "truncate", "first_entry", "last_entry", "extract_if"): continue
+            if not re.search(r"\.sent_packets\)*$", fmt(strip(resolved(t, t.arg(c, 0), f)))): continue
+            g = owner_fn(t, f)
+            r.site(c, f"{m_} in {short(g.path)}")
+            if not re.search(r"RenetClient::(process_packet|update)$", g.path):
+                r.bad(f"{short(g.path)}|{m_}", c, f"{short(g.path)} removes records from sent_packets ({m_}): an acknowledgement that arrives for an evicted record no longer reaches the ack handlers, the acknowledged data is retransmitted")
+    return r
+
+
+def challenge_sequence_use(t, rid):
+    """USE: the sequence a connection Response carries is the nonce its challenge token was sealed with and nothing else: no branch decides on it
+    (handshakes overlap, challenge sequences are global, so 'newer than the last redeemed one' is not a freshness test - it locks out an honest
+    client that was challenged first and answered last)."""
+    r = RuleResult(rid, "Response.token_sequence is only the nonce handed to ChallengeToken::decode: no branch compares it", floor=0)
+    f = t.fn("NetcodeServer::process_packet_internal")
+    uses = [c for c in t.calls(r"ChallengeToken::decode$", f)]
+    for c in uses: r.site(c, "nonce of ChallengeToken::decode")
+    for br in t.branches(f):
+        if br["kind"] != "bool" or br["cond"][0] != "cmp": continue
+        direct = [x for x in (br["cond"][2], br["cond"][3]) if fmt(strip(x)).endswith("as Response.token_sequence")]
+        if direct:
+            r.bad("branch-on-token-sequence", _term_site(f, br["bb"]), "a branch of process_packet_internal decides on the token_sequence of a connection Response: an honest client whose handshake overlapped with another one can be refused although its challenge is valid")
+    return r
